@@ -212,5 +212,7 @@ RefOK ==
 \* channels stay in range
 RangeOK == Fetched => \A j \in 1..out.rows, i \in 1..out.n, c \in 1..4 : out.px[j][i][c] \in 0..255
 
-MCView == <<svars, probe>>
+\* a stale `out` (fetched under an earlier configuration) takes no part in any invariant: states that differ
+\* only in it are identified
+MCView == <<image, transform, filter, repeat, probe, IF Fetched THEN out ELSE <<>> >>
 =============================================================================
